@@ -507,6 +507,21 @@ class ExecutorBase:
             return SV(mk_str(z3.Concat(SVs(a.term), SVs(b.term))), Ty("str"))
         if isinstance(op, ast.Add) and an in ("list", "tuple") and bn in ("list", "tuple"):
             return self.list_concat(a, b)
+        if isinstance(op, (ast.BitAnd, ast.BitOr, ast.Sub)) and an == "set" and bn == "set":
+            st = self.st
+            out = H.dict_new(st, a.ty)
+            o = H.rid(out)
+            ha, hb = st.read("$dhas", H.rid(a)), st.read("$dhas", H.rid(b))
+            k = z3.Const("so!k", Val)
+            comb = {ast.BitAnd: lambda x, y: z3.And(x, y), ast.BitOr: lambda x, y: z3.Or(x, y),
+                    ast.Sub: lambda x, y: z3.And(x, z3.Not(y))}[type(op)]
+            nh = st.fresh("sethas", ha.sort())
+            st.assume(z3.ForAll([k], z3.Select(nh, k) == comb(z3.Select(ha, k), z3.Select(hb, k))))
+            st.write("$dhas", o, nh)
+            for f in ("$dcnt", "$dord", "$dpos"):
+                st.write(f, o, st.fresh("set" + f[1:], st.read(f, o).sort()))
+            st.assume(H.dict_wf(st, o))
+            return out
         if isinstance(op, ast.Mod) and an == "str":
             self.dropped.add("%-format string value (opaque string)")
             return SV(mk_str(self.st.fresh("fstr", z3.StringSort())), Ty("str"))
@@ -718,6 +733,16 @@ class ExecutorBase:
 
     def ev_Lambda(self, node, fr):
         return SV(None, Ty("callable"), ("lambda", node, fr, fr.module))
+
+    def ev_Await(self, node, fr):
+        # `await f(...)`: coroutine functions are followed like ordinary calls (interleavings at awaits are handled by the
+        # contract's on_yield hook where a property needs them)
+        h = getattr(fr.contract, "on_yield", None) if fr.contract is not None else None
+        v = self.ev(node.value, fr)
+        if h is not None:
+            from .api import Ctx
+            h(Ctx(self, fr, "await " + ast.unparse(node.value)[:60], node))
+        return v
 
     def ev_Starred(self, node, fr):
         raise Unsupported("starred expression")
